@@ -33,6 +33,10 @@ every decision get_action returns counts as chosen, in training and in evaluatio
 are swept (head output activation, layer_norm, latent and hidden sizes, activations): the reference features are
 torch.autograd gradients of the network OUTPUT on the agent's own actor.
 
+Agents are also built with accelerate.Accelerator(cpu=True, gradient_accumulation_steps=N) (`accel: N`, N in 1, 2, 4;
+the same accelerator is handed to Mutations and load), and two crafted histories per algorithm keep ONE matrix alive
+for 135 decisions (clone after 45, reload in the middle) so that periodic effects at 50 / 64 / 100 / 128 updates show.
+
 Lambda semantics (DESIGN D16): Z0 = lamb*I is the property text ("paper"); `sigma_inv0 = lamb*I`
 ("code") is probed on exactly lamb != 1 through chk.finding("C19-lambda-not-inverted").  A stale
 `exp_layer` after load is probed through chk.finding("C19-exp-layer-stale-after-load").
@@ -52,6 +56,7 @@ from __future__ import annotations
 import json
 import os
 import random
+import re
 import shutil
 import tempfile
 from fractions import Fraction
@@ -102,7 +107,17 @@ def obs_dim(case) -> int:
     return case["ctx_dim"] * case["arms"] if case["ctx_kind"] == "block" else case["ctx_dim"]
 
 
-def build(case, seed):
+def make_accelerator(case):
+    """`accel: N` builds the agent with accelerate.Accelerator(cpu=True, gradient_accumulation_steps=N), as the
+    distributed training scripts do (constructible offline; one per case, the gradient state is process-wide)"""
+    n = case.get("accel")
+    if not n:
+        return None
+    from accelerate import Accelerator
+    return Accelerator(cpu=True, gradient_accumulation_steps=int(n))
+
+
+def build(case, seed, accelerator=None):
     import agents
     from gymnasium import spaces
     cls = agents.algo_class(case["algo"])
@@ -110,7 +125,7 @@ def build(case, seed):
     return cls(spaces.Box(-1.0, 1.0, (obs_dim(case),), np.float32), spaces.Discrete(case["arms"]),
                net_config=net_config(case), hp_config=hp_config(case),
                gamma=case["gamma"], lamb=case["lamb"], batch_size=4, learn_step=1, device="cpu",
-               accelerator=None)
+               accelerator=accelerator)
 
 
 def make_context(case, seed) -> np.ndarray:
@@ -178,10 +193,10 @@ def features(agent, ctx):
     return mu.detach().reshape(-1).double().numpy(), torch.stack(rows).detach()
 
 
-def mutations(kind: str, seed: int):
+def mutations(kind: str, seed: int, accelerator=None):
     from agilerl.hpo.mutation import Mutations
     kw = dict(no_mutation=0, architecture=0, new_layer_prob=0.5, parameters=0, activation=0, rl_hp=0,
-              mutation_sd=0.1, rand_seed=seed, device="cpu")
+              mutation_sd=0.1, rand_seed=seed, device="cpu", accelerator=accelerator)
     kw[{"none": "no_mutation", "arch": "architecture", "param": "parameters", "act": "activation",
         "rl_hp": "rl_hp"}[kind]] = 1
     return Mutations(**kw)
@@ -278,7 +293,10 @@ def run_impl(case, fault=None) -> Trace:
     import agents
     tr = Trace()
     algo = case["algo"]
-    live = [{"agent": build(case, case["seed"]), "Z": None, "lamb": float(case["lamb"]), "since": 0}]
+    acc = make_accelerator(case)
+    if acc is not None:
+        tr.tags.append(f"accelerator-gas{case['accel']}")
+    live = [{"agent": build(case, case["seed"], acc), "Z": None, "lamb": float(case["lamb"]), "since": 0}]
     cur = 0
     tmpdir = None
 
@@ -414,7 +432,7 @@ def run_impl(case, fault=None) -> Trace:
             elif op[0] == "mutate":
                 before = layer_numel(live_layer(agent))
                 agents.seed_all(op[2])
-                agent = mutations(op[1], op[2]).mutation([agent])[0]
+                agent = mutations(op[1], op[2], acc).mutation([agent])[0]
                 slot["agent"] = agent
                 P = layer_numel(live_layer(agent))
                 sync_lamb(slot, where)               # an rl_hp mutation may have changed lamb before the hook ran
@@ -481,11 +499,11 @@ def run_impl(case, fault=None) -> Trace:
                 path = os.path.join(tmpdir, f"ckpt_{oi}.pt")
                 agent.save_checkpoint(path)
                 if op[1] == "load":
-                    agent = type(agent).load(path, device="cpu")
+                    agent = type(agent).load(path, device="cpu", accelerator=acc)
                 elif op[1] == "ckpt_self":
                     agent.load_checkpoint(path)
                 else:                               # a fresh agent of the *original* architecture
-                    fresh = build(case, case["seed"] + 7)
+                    fresh = build(case, case["seed"] + 7, acc)
                     fresh.load_checkpoint(path)
                     agent = fresh
                 slot["agent"] = agent
@@ -611,6 +629,8 @@ def gen_case(rng: random.Random, tier: str, grow: bool = False):
     if rng.random() < 0.4:
         case["enc"] = rng.choice([[2], [6], [3, 5], [8]])
     case["hp"] = rng.choice(["default", "lamb", "all"])
+    if rng.random() < 0.3:
+        case["accel"] = rng.choice([1, 2, 4])          # agent built with an accelerate.Accelerator
     if grow:
         case["head"], case["max_nodes"] = [8], 24
     ops = []
@@ -733,6 +753,20 @@ def crafted_cases():
         for sd in range(10):
             ops += [["mutate", "arch", sd], ["act", 20 + sd, None]]
         out.append(dict(base, algo=algo, lamb=2.0, ctx_kind="dense", head=[7, 3], seed=750 + i, ops=ops))
+        # agents built with an accelerator (gradient accumulation 4 and the default 1)
+        for j, gas in enumerate((4, 1)):
+            ops = [["act", 1, None], ["act", 2, one(0)], ["learn", 3], ["act", 4, None], ["mutate", "arch", 5],
+                   ["act", 6, None], ["clone"], ["act", 7, None], ["switch", 0], ["act", 8, None],
+                   ["reload", ["load", "ckpt_fresh"][j]], ["act", 9, None], ["test", 10, 2], ["act", 11, None]]
+            out.append(dict(base, algo=algo, lamb=[0.5, 2.0][j], ctx_kind=["dense", "block"][j], ctx_dim=2,
+                            seed=760 + 2 * i + j, accel=gas, ops=ops))
+        # a long life of one matrix: 135 decisions since the last initialisation on a tiny net, a clone
+        # and a reload in the middle (periodic effects at 50 / 64 / 100 / 128 updates, float32 drift)
+        ops = [["act", 1000 + t, None] for t in range(45)] + [["clone"]] + \
+              [["act", 2000 + t, None] for t in range(10)] + [["switch", 0], ["reload", "load"]] + \
+              [["act", 3000 + t, one(t % 2, 2) if t % 9 == 0 else None] for t in range(40)] + [["learn", 4000]] + \
+              [["act", 5000 + t, None] for t in range(40)]
+        out.append(dict(base, algo=algo, lamb=1.0, arms=2, ctx_dim=2, ctx_kind="dense", head=[3], seed=770 + i, ops=ops))
         # decisions after a fitness evaluation / in evaluation mode count like any other
         ops = [["act", 1, None], ["test", 2, 3], ["act", 3, None], ["act", 4, one(1)], ["learn", 5], ["act", 6, None],
                ["clone"], ["act", 7, None], ["switch", 0], ["act", 8, None], ["reload", "load"], ["act", 9, None],
@@ -744,7 +778,7 @@ def crafted_cases():
 
 def key_of(case):
     return [case[k] for k in ("algo", "lamb", "gamma", "ctx_dim", "arms", "ctx_kind", "head", "seed")] + \
-        [case.get(k) for k in ("out_act", "latent", "enc", "hp")] + [case["ops"]]
+        [case.get(k) for k in ("out_act", "latent", "enc", "hp", "accel")] + [case["ops"]]
 
 
 # ----------------------------------------------------------------------------- check
@@ -756,7 +790,12 @@ def report(chk: Check, case, tr: Trace, diffs, origin=None):
         c = dict(case, ops=sub)
         t, d = one_case(chk, c)
         return bool(t.problems) if problems else bool(d)
-    small_ops = ddmin(case["ops"], still_fails) if len(case["ops"]) > 1 else case["ops"]
+    ops = case["ops"]
+    m = re.match(r"op (\d+) ", (problems or diffs or [""])[0])
+    if m and int(m.group(1)) + 1 < len(ops) and still_fails(ops[:int(m.group(1)) + 1]):
+        ops = ops[:int(m.group(1)) + 1]          # nothing after the first failing op is needed
+    # (long histories: the failure may need its length, e.g. a periodic effect - keep the prefix)
+    small_ops = ddmin(ops, still_fails) if 1 < len(ops) <= 40 else ops
     small = dict(case, ops=small_ops)
     t2, d2 = one_case(chk, small)
     if not (t2.problems if problems else d2):
